@@ -81,6 +81,7 @@ SPECS["C03"] = dict(
         H("core_h", "pb_gap_tc", stubbing=True, timeout=900, mem_gb=16, symbolic="as pb_consec_notc + TC round and 3 high-QC rounds; stored 2-chain rounds 5,7", asserts="as above incl. the TC branch"),
         H("core2_h", "lt_local_timeout", stubbing=True, timeout=900, mem_gb=16, symbolic="node round/last_voted", asserts="real local_timeout_round raises last_voted_round to the current round"),
         H("core2_h", "lt_then_proposal", stubbing=True, timeout=1200, mem_gb=20, symbolic="node state, block", asserts="after a local timeout no proposal of that round is voted"),
+        H("core2_h", "pb_two_proposals", tier="thorough", stubbing=True, timeout=3000, mem_gb=30, symbolic="two blocks (rounds, authors) on the same parent, node last_voted/high_qc", asserts="two consecutive process_block calls: at most one vote per round, vote rounds strictly increase (equivocating proposals)"),
     ],
 )
 # --------------------------------------------------------------------------------------------- C02
@@ -148,6 +149,8 @@ SPECS["C04"] = dict(
         H("messages_h", "c04_block_verify_genesis", symbolic="4 stakes; author, validity; genesis QC", asserts="Ok <=> author has stake, signature valid"),
         H("messages_h", "c04_block_verify_notc", symbolic="4 stakes; author, validity, embedded QC", asserts="Ok <=> author has stake, signature valid, QC genesis or valid"),
         H("messages_h", "c04_block_verify_tc", symbolic="as notc + 3-entry TC", asserts="additionally TC valid", timeout=900),
+        H("messages_h", "c04_block_verify_genesis_tc", symbolic="genesis QC + 3-entry TC", asserts="the TC is verified whatever the embedded QC is", timeout=900),
+        H("core2_h", "hp_genesis_empty_tc", stubbing=True, timeout=900, mem_gb=16, symbolic="TC round", asserts="leader proposal with genesis QC and an empty TC: rejected, nothing changes"),
         H("core2_h", "hp_bad_block_sig", stubbing=True, timeout=1200, mem_gb=20, symbolic="proposal with an invalid own signature, node state", asserts="rejected; round, last_voted, high_qc, timer, wire, commit, proposer, mempool, store, aggregator untouched"),
         H("core2_h", "hp_bad_qc_vote", stubbing=True, timeout=1200, mem_gb=20, symbolic="proposal whose QC has one invalid vote", asserts="as above"),
         H("core2_h", "hp_qc_below_quorum", stubbing=True, timeout=1200, mem_gb=20, symbolic="proposal whose QC has 2 votes", asserts="as above"),
@@ -183,7 +186,7 @@ SPECS["C09"] = dict(
     level="model_checking",
     technique="bounded symbolic execution of the real RRLeaderElector::get_leader and of the Core handlers' leader checks / proposal requests (Kani/CBMC, SAT)",
     bounds="committees of 4 (thorough: 3,5,7 via profile L8) built in every insertion order, round any u64; handler steps from arbitrary node states with symbolic message rounds/authors",
-    outside="the Proposer task (make_block) itself; committees above 7",
+    outside="the Proposer task itself (a harness over the lowered make_block, kani/harness/proposer_h.rs, ran out of 16 GB after 700 s and is not part of the check), so 'an honest authority never signs two proposals for one round' is decided only as 'the core requests at most one proposal per round'; committees above 7",
     trusted_base=TB_L,
     assumptions=["ideal signatures", "rounds below 2^62 in handler harnesses"],
     harnesses=[
@@ -266,9 +269,9 @@ SPECS["C18"] = dict(
 # --------------------------------------------------------------------------------------------- C11
 SPECS["C11"] = dict(
     level="model_checking",
-    technique="bounded symbolic execution of the real BatchMaker::seal (Kani/CBMC, SAT), default and benchmark builds",
-    bounds="open batches of 1..3 transactions with concrete sizes (0, 1, 4, 6, 9, 12 bytes; incl. an empty transaction and shapes that look like benchmark sample transactions) and fully symbolic contents; 3 peers",
-    outside="PARTIAL CLAIM: the size/timer trigger logic of BatchMaker::run (the real select! loop is a compiler-generated coroutine; driving it did not finish symbolic execution in 900 s, with and without lowering seal) - so 'sealed as soon as the threshold is reached or the delay elapses' is NOT decided; Processor / receiver-side hashing (digest binding is C20); other sizes",
+    technique="bounded symbolic execution of the real BatchMaker::run loop (lowered with a synchronous select) and BatchMaker::seal (Kani/CBMC, SAT), default and benchmark builds",
+    bounds="run loop: 5 event schedules of 3-5 events (arrivals of 0..12-byte transactions incl. empty, exact-threshold and oversize ones; timer expiries on empty and non-empty batches; batch_size 8/10; both select! start branches); seal: open batches of 1..3 transactions; contents fully symbolic; 3 peers",
+    outside="schedules and sizes other than the listed ones (sizes decide the loop's control flow and are concrete); a transaction and the timer becoming ready in the same step; Processor / receiver-side hashing (digest binding is C20); real time (the timer fires when the harness says so)",
     trusted_base=TB_L,
     assumptions=[],
     harnesses=[
@@ -276,6 +279,11 @@ SPECS["C11"] = dict(
         H("batch_maker_h", "c11_seal_empty_tx", stubbing=True, timeout=900, mem_gb=16, symbolic="one empty transaction", asserts="as above"),
         H("batch_maker_h", "c11_seal_1_0_9", stubbing=True, timeout=900, mem_gb=16, symbolic="bytes of 3 transactions (1, 0, 9 bytes)", asserts="as above"),
         H("batch_maker_h", "c11_seal_12", stubbing=True, timeout=900, mem_gb=16, symbolic="12 bytes", asserts="as above"),
+        H("batch_maker_h", "c11_run_size_then_empty_s0", stubbing=True, timeout=900, mem_gb=16, symbolic="bytes of 3 transactions (4, 6, 0 bytes); schedule tx,tx,tx,timer; batch_size 10", asserts="real run loop (lowered): sealed exactly in the step where size >= batch_size or the timer fires on a non-empty batch, never otherwise; batch == open transactions in order"),
+        H("batch_maker_h", "c11_run_size_then_empty_s1", stubbing=True, timeout=900, mem_gb=16, symbolic="as s0, other select! start branch", asserts="as s0"),
+        H("batch_maker_h", "c11_run_oversize_timer_s0", stubbing=True, timeout=900, mem_gb=16, symbolic="bytes of 3 transactions (12, 3, 2); schedule tx,timer,tx,tx,timer", asserts="as above; a timer on an empty batch seals nothing"),
+        H("batch_maker_h", "c11_run_boundary_s1", stubbing=True, timeout=900, mem_gb=16, symbolic="bytes of 4 transactions (7, 1, 8, 9); batch_size 8", asserts="exact-threshold and consecutive size-triggered batches"),
+        H("batch_maker_h", "c11_run_only_empty_s0", stubbing=True, timeout=900, mem_gb=16, symbolic="two empty transactions then the timer", asserts="a batch of only empty transactions is sealed when the timer fires"),
         H("batch_maker_h", "c11_seal_empty_tx", features="benchmark", stubbing=True, timeout=900, mem_gb=16, symbolic="one empty transaction, benchmark build", asserts="no panic in the sample-transaction scan"),
         H("batch_maker_h", "c11_seal_1_0_9", features="benchmark", stubbing=True, timeout=900, mem_gb=16, symbolic="3 transactions (1, 0, 9 bytes), first byte symbolic (0 = sample), benchmark build", asserts="no panic; same batch as the default build"),
     ],
@@ -315,6 +323,8 @@ SPECS["C15"] = dict(
         H("batch_maker_h", "c11_seal_empty_tx", features="benchmark", stubbing=True, timeout=900, mem_gb=16, symbolic="one empty transaction, benchmark build", asserts="no panic"),
         H("core2_h", "hv_single_nonmember", stubbing=True, timeout=900, mem_gb=16, symbolic="vote of a non-member", asserts="handler returns an error, no panic"),
         H("core2_h", "htc_bad_sig", stubbing=True, timeout=900, mem_gb=16, symbolic="TC with a transplanted signature", asserts="handler returns an error, no panic"),
+        H("core2_h", "hp_genesis_empty_tc", stubbing=True, timeout=900, mem_gb=16, symbolic="TC round", asserts="hostile leader proposal (genesis QC, empty TC): rejected without reaching the voting rule's max() (no panic)"),
+        H("core2_h", "hp_genesis_subquorum_tc", stubbing=True, timeout=900, mem_gb=16, symbolic="TC round", asserts="as above with a 2-entry TC"),
         H("crypto_r", "c15_pk_decode_len4", profile="R", pkg="crypto", stubbing=True, timeout=900, mem_gb=16, symbolic="every 4-character ASCII string", asserts="PublicKey::decode_base64 returns Ok or Err, never panics"),
         H("crypto_r", "c15_pk_decode_len8", profile="R", pkg="crypto", stubbing=True, timeout=900, mem_gb=16, symbolic="every 8-character ASCII string", asserts="as len4"),
         H("crypto_r", "c15_sk_decode_len4", profile="R", pkg="crypto", stubbing=True, timeout=900, mem_gb=16, symbolic="every 4-character ASCII string", asserts="SecretKey::decode_base64 never panics"),
